@@ -25,7 +25,8 @@ from .c11 import expected_gap
 LEVEL = "exploration"
 RULE = ("case = (env state, solver) decision: ModelInstance.get_env() envs (n=3: every reachable state through every "
         "order; n=4,5: random trajectories) for hidden games from asymmetric families (noisy_factory*, graph*, xos, "
-        "cheerleader_next) and symmetric ones (factory*: many exact ties); all four registered solvers. Oracles: "
+        "cheerleader_next) and symmetric ones (factory*: many exact ties), with and without a step budget (so that states where "
+        "a probe reports done only because the budget is used up are reached); all four registered solvers. Oracles: "
         "returned action valid; env fingerprint (table, steps, hidden and normalised game, observation, mask, done) "
         "identical before/after; greedy/worst: reward of the choice == max/min over all valid actions of the reference "
         "reward, every probe the solver made matches the reference, and the choice is the first index attaining the "
@@ -38,7 +39,7 @@ RULE = ("case = (env state, solver) decision: ModelInstance.get_env() envs (n=3:
 SHARDS = {"quick": 4, "thorough": 16}
 BUDGET = {"quick": 50, "thorough": 420}
 REQUIRED = ["decisions_checked", "fingerprints_compared", "probes_recorded", "tie_states", "expected_greedy_runs",
-            "n3_states_all_orders"]
+            "n3_states_all_orders", "decisions_at_last_allowed_step"]
 
 ASYM = ["noisy_factory", "noisy_factory_square", "noisy_factory_fixed", "graph_cycle", "graph_random", "xos", "xs",
         "factory_cheerleader_next", "graph_internet", "oxs"]
@@ -139,7 +140,11 @@ def decision(ctx, case, env, solver_name, solver, values) -> None:
         if action != first:
             bad("not-the-rule-action", f"chose {action} (size {sizes[action]}); first largest unknown coalition is {first} "
                 f"(size {sizes[first]})")
-    ctx.case((values, known, solver_name, gapname, comp), nontrivial,
+    if case.get("budget") is not None:
+        ctx.count("decisions_in_step_limited_envs")
+        if env.steps_taken == case["budget"] - 1:
+            ctx.count("decisions_at_last_allowed_step")
+    ctx.case((values, known, solver_name, gapname, comp, case.get("budget")), nontrivial,
              sample=({"solver": solver_name, "generator": case["generator"], "computer": comp, "gap": gapname, "n": n,
                       "known": known, "valid": valid, "chosen": action,
                       "rewards": {str(k): v for k, v in rewards.items()}} if len(known) == n + 3 else None))
@@ -244,7 +249,8 @@ def run(ctx) -> None:
         gapname = rng.choice(list(GAP_FUNCTIONS))
         seed = rng.randint(0, 10**6)
         for order in permutations(range(3)):
-            trajectory(ctx, {"n": 3, "generator": g, "computer": comp, "gap": gapname, "seed": seed, "actions": list(order)})
+            trajectory(ctx, {"n": 3, "generator": g, "computer": comp, "gap": gapname, "seed": seed, "actions": list(order),
+                             "budget": rng.choice([None, 1, 2, 3])})
         ctx.count("n3_states_all_orders")
     i = 0
     while not ctx.out_of_time(6.0):
@@ -266,7 +272,7 @@ def run(ctx) -> None:
             rng.shuffle(acts)
             acts = acts[: rng.randint(1, nexp - 1 if n == 4 else 8)]
             trajectory(ctx, {"n": n, "generator": g, "computer": comp, "gap": gapname, "seed": rng.randint(0, 10**6),
-                             "actions": acts, "solvers": ["greedy", "greedy_worst", "largest", "random"] if n == 4 else
+                             "actions": acts, "budget": rng.choice([None, None, rng.randint(1, len(acts) + 1)]), "solvers": ["greedy", "greedy_worst", "largest", "random"] if n == 4 else
                              rng.sample(["greedy", "greedy_worst", "largest", "random"], 2)})
 
 
